@@ -58,6 +58,7 @@ static void emit_bits(FILE *f, const word *w, int nw) {
 
 static long def_root(vh_ctx_t *c, int ri) {
   vh_root_t *r = &c->roots[ri];
+  if (c->mute) { r->line = 0; return 0; }
   mzd_t *M = r->M;
   if (!r->snap) r->snap = (word *)vh_xmalloc(sizeof(word) * (root_words(M) + 1));
   root_copy(M, r->snap);
@@ -74,6 +75,7 @@ static long def_root(vh_ctx_t *c, int ri) {
 
 long vh_def_words(const word *w, int nw) {
   vh_ctx_t *c = CTX;
+  if (c->mute) return 0;
   c->line++;
   fprintf(c->f, "{\"e\":\"words\",\"nw\":%d,\"bits\":", nw);
   emit_bits(c->f, w, nw);
@@ -212,6 +214,7 @@ void vh_opnd(vh_ev_t *e, const char *nm, char role, mzd_t *M) {
 
 void vh_pre(vh_ev_t *e) {
   vh_ctx_t *c = CTX;
+  if (c->mute) return;
   for (int i = 0; i < c->nroots; i++) {
     vh_root_t *r = &c->roots[i];
     if (!r->live) continue;
@@ -238,6 +241,7 @@ void vh_result(vh_ev_t *e, const char *nm, mzd_t *R) {
 
 void vh_post(vh_ev_t *e) {
   vh_ctx_t *c = CTX;
+  if (c->mute) return;
   long stray[64];
   int nstray = 0;
   for (int i = 0; i < c->nroots; i++) {
@@ -264,11 +268,16 @@ void vh_post(vh_ev_t *e) {
   }
   fprintf(c->f, "],\"ret\":%ld,\"die\":%d,\"stray\":[", e->ret, e->die);
   for (int i = 0; i < nstray; i++) fprintf(c->f, "%s%ld", i ? "," : "", stray[i]);
-  fprintf(c->f, "],\"live\":%ld,\"case\":%ld}\n", vh_live_blocks, c->curcase);
+  /* blocks the call is entitled to keep: header + storage of every freshly returned matrix */
+  long expect = 0;
+  for (int k = 0; k < e->no; k++)
+    if (e->o[k].role == 'r' && e->o[k].M) expect += (e->o[k].M->data ? 2 : 1);
+  fprintf(c->f, "],\"leak\":%ld,\"case\":%ld}\n", vh_leakcheck ? e->dlive - expect : 0, c->curcase);
 }
 
 void vh_raw(const char *fmt, ...) {
   vh_ctx_t *c = CTX;
+  if (c->mute) return;
   va_list ap;
   va_start(ap, fmt);
   vfprintf(c->f, fmt, ap);
@@ -279,6 +288,7 @@ void vh_raw(const char *fmt, ...) {
 
 void vh_note(const char *fmt, ...) {
   vh_ctx_t *c = CTX;
+  if (c->mute) return;
   va_list ap;
   fputs("{\"e\":\"note\",\"t\":\"", c->f);
   va_start(ap, fmt);
@@ -290,11 +300,30 @@ void vh_note(const char *fmt, ...) {
 
 /* ---- case seeding and isolation ---- */
 #include "vh_fam.h"
+#include <m4ri/mmc.h>
 #include <sys/wait.h>
 #include <unistd.h>
 #include <signal.h>
 
 int vh_nofork = 0;
+int vh_npass = 1, vh_pass = 1;
+int vh_leakcheck = 0;
+#if __M4RI_ENABLE_MMC
+extern mmb_t m4ri_mmc_cache[];
+#endif
+
+void vh_pass_begin(void) {
+  vh_ctx_t *c = CTX;
+  c->rng = c->caseseed;
+  c->mute = (vh_pass > 1);
+#if __M4RI_ENABLE_MMC
+  if (vh_npass > 1 && vh_pass == 1) {
+    /* the warm-up pass left recyclable blocks in the block cache: make them as dirty as possible */
+    for (int i = 0; i < __M4RI_MMC_NBLOCKS; i++)
+      if (m4ri_mmc_cache[i].size && m4ri_mmc_cache[i].data) memset(m4ri_mmc_cache[i].data, 0xFF, m4ri_mmc_cache[i].size);
+  }
+#endif
+}
 static int case_pipe[2];
 static int in_child = 0;
 
@@ -302,6 +331,7 @@ void vh_case_seed(const vh_args_t *a, long idx) {
   uint64_t z = a->seed * 0x9E3779B97F4A7C15ULL ^ ((uint64_t)idx + 1) * 0xD1B54A32D192ED03ULL;
   z ^= z >> 29;
   CTX->rng = z * 0xBF58476D1CE4E5B9ULL + 12345;
+  CTX->caseseed = CTX->rng;
   CTX->curcase = idx;
 }
 
